@@ -1,6 +1,7 @@
 // C11 — updatable heap: E2 history BFS on the real ompl::BinaryHeap, canonical state = private key array.
 #include <ompl/datastructures/BinaryHeap.h>
 #include "hbfs.hpp"
+#include "asanhook.hpp"
 #include <algorithm>
 
 struct E
